@@ -258,3 +258,8 @@ func NewSubject(wk WK, fn WorkFn, cfg ...any) *Subject {
 
 func varmqExpiry(d time.Duration) any { return varmq.WithIdleWorkerExpiryDuration(d) }
 func varmqRatio(p uint8) any          { return varmq.WithMinIdleWorkerRatio(p) }
+
+var (
+	errNotRunning = varmq.ErrNotRunningWorker
+	errSameConc   = varmq.ErrSameConcurrency
+)
